@@ -126,7 +126,14 @@ def game_state(prog, p1_turn, phase, pb=None, hash_name='h', move_number=None):
                        hash=opaque_hash(hash_name))
 
 
+def sym_flag(name='trapped_in'):
+    """a symbolic boolean input (both values explored at once; results that do not depend on it merge back)"""
+    return boolv(B.atom_bit(B.atom('tokbool', name)))
+
+
 def play_state(prog, side_gold, step, pps_kind='None', sq=None, pc=None, trapped=False):
+    if trapped == 'sym':
+        trapped = sym_flag()
     pps = push_pull_state(prog, pps_kind, sq, pc)
     ph = Enum('engine::Phase', enum_variant(prog, 'engine::Phase', 'PlayPhase'), (play_phase(prog, step, pps, trapped),))
     return game_state(prog, side_gold, ph)
